@@ -84,6 +84,61 @@ def hashed_inputs(rng, n):
     return out
 
 
+def reduced_pass(ctx, rng, its):
+    table = inproc.derives()
+    feat_of = {tr: f for f, _, tr, _ in table}
+    feats = sorted(set(feat_of.values()))
+    always = [("error",), ("display",), ("debug",), ("from",), ("as_ref",)]
+    pool = [(f,) for f in feats if (f,) not in always] + [tuple(sorted(rng.sample(feats, 2))) for _ in range(6)] + [("error", "display"), ("debug", "display")]
+    configs = always + (rng.sample(pool, 3) if ctx.quick() else pool)
+    K = 3
+    n_cmp = 0
+    for cfg in configs:
+        mine = []
+        for it in its:
+            for d in it.derives:
+                if feat_of.get(d) in cfg:
+                    mine.append((d, it.src.replace("@N@", "R%d" % len(mine))))
+        for d, src in hashed_inputs(rng, ctx.pick(150, 1500)):
+            if feat_of.get(d) in cfg:
+                mine.append((d, src))
+        if not mine:
+            continue
+        with inproc.feature_set(cfg):
+            inproc.build()
+
+            def child(k):
+                order = list(range(len(mine)))
+                random.Random(ctx.seed * 733 + k).shuffle(order)
+                lines = ["%d\t%s\t%s" % (i, mine[i][0], inproc.hexs(mine[i][1])) for i in order]
+                return inproc.run_mode("expand", lines, args=["--digest", "--info"])
+            res = [child(k) for k in range(K)]
+        digs, fps = [], []
+        for rc, outs, err, last in res:
+            if rc != 0:
+                raise Inconclusive("reduced-feature child (%s) exited %s at %s: %s" % ("+".join(cfg), rc, last, err[-300:]))
+            digs.append({o["id"]: (o["kind"], o.get("digest") or o.get("msg")) for o in outs if o.get("id") != "#info"})
+            fps += [o["random_state_fingerprint"] for o in outs if o.get("kind") == "info"]
+        if len(set(fps)) < 2:
+            raise Inconclusive("reduced-feature children did not get different RandomState seeds")
+        ctx.bump("reduced_feature_configs")
+        ctx.cls(("reduced", cfg))
+        for i, (d, src) in enumerate(mine):
+            d0 = digs[0].get(str(i))
+            if d0 is None:
+                raise Inconclusive("input missing from a reduced-feature child")
+            if d0[0] == "unknown_derive":
+                raise Inconclusive("derive %s is not available under features %s" % (d, cfg))
+            n_cmp += 1
+            for k in range(1, K):
+                if digs[k].get(str(i)) != d0:
+                    ctx.violate("nondeterministic:%s:features=%s" % (d, "+".join(cfg)),
+                                "with only the feature(s) %s enabled, derive(%s) on `%s` expanded differently in process %d (%s) than in process 0 (%s)" % (
+                                    "+".join(cfg), d, src[:300], k, digs[k].get(str(i)), d0), derive=d, item=src, features=list(cfg))
+                    break
+    ctx.extra["reduced_feature_comparisons"] = n_cmp
+
+
 def run(ctx):
     rng = ctx.rng
     inproc.build()
@@ -153,6 +208,10 @@ def run(ctx):
     ctx.extra["comparisons"] = len(ids) * (K - 1)
     ctx.sample({"derive": corpus[-1][0], "item": corpus[-1][1][:400], "digest_in_every_process": base[str(len(corpus) - 1)][1]})
     ctx.sample({"random_state_fingerprints": fps[:6], "envs": envs[:2]})
+
+    # the same comparison with harnesses built for REDUCED feature sets: helper code that is cfg-gated per feature
+    # (e.g. a deterministic hasher only compiled next to some features) is a different program there
+    reduced_pass(ctx, rng, its)
 
     # real proc-macro path: expand one crate repeatedly in fresh rustc processes
     its2 = its[: ctx.pick(120, 700)]
